@@ -37,7 +37,8 @@ def rand_value(rng):
 
 
 def rand_opts(rng):
-    n = rng.choice([0, 0, 1, 1, 2, 3, 4, 5, 8])
+    # mostly short lists; now and then far more entries than there are option kinds (repeats are legal on the wire)
+    n = rng.choice([0, 0, 1, 1, 2, 3, 4, 5, 8, 8, 15, 16, 17, 18, 31, 32, 33, 40])
     return [(rng.choice(rfc.OPT_NAMES), rand_value(rng)) for _ in range(n)]
 
 
